@@ -593,6 +593,13 @@ func BuildFromAliasedTable(query *Query, as string, expr sqlparser.SimpleTableEx
 				}
 			default:
 				{
+					// a path such as `<-` (or one without any selector) resolves to
+					// the enclosing document itself, which doubles as the registry
+					// of the lazy CTEs: it becomes a row as plain data, or the rows
+					// of a CTE could end up holding the map they are stored in
+					if document, ok := data.(Map); ok {
+						data = PlainDocument(document)
+					}
 					array, err := AsArray(data)
 					if err != nil {
 						return err
